@@ -109,7 +109,7 @@ def peel(le, lg, facts, labels, got_raised=False):
             # M4: `*a, b = [x, y]` is rewritten into assignments evaluated from right to left
             if f[0] == 'starunpack' and ka is not None and kb is not None and f[1] <= ka <= f[2] and f[1] <= kb <= f[2]:
                 drop = lambda e, f=f: ev_key(e) is not None and f[1] <= ev_key(e) <= f[2]
-                if sorted(map(repr, filter(drop, le))) == sorted(map(repr, filter(drop, lg))):
+                if got_raised or sorted(map(repr, filter(drop, le))) == sorted(map(repr, filter(drop, lg))):
                     le = [e for e in le if not drop(e)]
                     lg = [e for e in lg if not drop(e)]
                     mechs.add('starred-unpack-of-display-reordered')
@@ -118,17 +118,26 @@ def peel(le, lg, facts, labels, got_raised=False):
         if hit:
             continue
         # M5: `o.x.y += v` evaluates `o.x` a second time for the store
-        if nb in ('getattr', 'getitem') and b in lg[:i] and 'stmt-augassign' in labels and (
-                i + 1 < len(lg) and ev_name(lg[i + 1]) in ('setattr', 'setitem')):
-            lg.pop(i)
-            mechs.add('inplace-target-base-reevaluated')
-            continue
+        if nb in ('getattr', 'getitem') and b in lg[:i] and 'stmt-augassign' in labels:
+            j = i
+            while j < len(lg) and ev_name(lg[j]) in ('getattr', 'getitem') and lg[j] in lg[:i]:
+                j += 1
+            if j < len(lg) and ev_name(lg[j]) in ('setattr', 'setitem'):
+                del lg[i:j]
+                mechs.add('inplace-target-base-reevaluated')
+                continue
         # M6 (value, not order): a C bint used as an index arrives as int
-        if na == nb and na in ('getitem', 'setitem', 'delitem') and ev_fullkey(a) == ev_fullkey(b) \
-                and repr(a).replace("['bool', 'False']", "['int', '0']").replace("['bool', 'True']", "['int', '1']") == repr(b):
-            lg[i] = a
-            mechs.add('value:bint-index-arrives-as-int')
-            continue
+        if na == nb and na in ('getitem', 'setitem', 'delitem') and ev_fullkey(a) == ev_fullkey(b):
+            try:
+                ia, ib = a[1][2], b[1][2]
+                same_rest = a[1][:2] + a[1][3:] == b[1][:2] + b[1][3:]
+            except Exception:
+                ia = ib = None
+                same_rest = False
+            if same_rest and ia and ia[0] == 'bool' and ib == ['int', '1' if ia[1] == 'True' else '0']:
+                lg[i] = a
+                mechs.add('value:bint-index-arrives-as-int')
+                continue
         return mechs, i, le, lg
     return mechs, i, le, lg
 
